@@ -17,6 +17,18 @@ Oracle on the real code (written from the property text, independent of the Lean
 T2: `expo text` of the driver must give the same bytes, `c03 parse` the same families (or error class), on the real
 exposition text and on a malformed stream (mutated expositions, grammar documents, noise).
 
+Two further dimensions of every registry spec:
+  * "unusual but legal Python types": a string the application supplies (label value, `le`, Info value, state, help; label
+    name / custom-collector metric name where the exposition quotes it) may be an instance of a `str` SUBCLASS whose
+    `__str__`, `__format__` and `__repr__` differ from its character data (str-mixin Enum member, masking string, tagged
+    string; alphanumeric data as well as data needing escapes).  In a spec such a string is `{'sub': kind, 's': data}`.
+    The reference is the character data of whatever string the collected Sample / Metric carries (`chardata`): that is what
+    "the exposed series" are; the driver request encodes the character data too.
+  * `spec['created']` — the process-wide created-series switch (`disable_created_metrics()` / `enable_created_metrics()`) in
+    effect at scrape time (collect + generate_latest).  The switch only stops the instrumentation classes from producing
+    `_created`; a custom collector that still yields `_created` samples must get them split into the trailing gauge family
+    whatever the switch says (the property's mapping does not depend on it).
+
 Signatures: C03:name-trailing-newline (F2 class: a legacy-looking metric, sample or label name ending in '\\n'),
 C03:label-name-unvalidated:<source> (a label name the library itself would reject reached the exposition through a
 path that does not validate it), else C03:<what differs>.
@@ -172,10 +184,111 @@ def build_raw(f):
     return m
 
 
+# ---- str subclasses whose __str__/__format__/__repr__ differ from their character data
+SUB_KINDS = ['enum', 'mask', 'tag']
+
+
+class MaskedStr(str):
+    """a secret-masking string: prints as stars, is the real text"""
+
+    def __str__(self):
+        return '***'
+
+    def __format__(self, fmt):
+        return '***'
+
+    def __repr__(self):
+        return '<masked>'
+
+
+class TaggedStr(str):
+    """a markup string: str()/format() add a tag (with characters that need escaping) around the data"""
+
+    def __str__(self):
+        return 'tag:"' + str.__str__(self) + '"'
+
+    def __format__(self, fmt):
+        return '<b>' + str.__str__(self) + '</b>\\'
+
+    def __repr__(self):
+        return 'TaggedStr()'
+
+
+def make_sub(kind, data):
+    if kind == 'enum':
+        import enum
+        return enum.Enum('Color', {'MEMBER': data}, type=str).MEMBER      # str(x) == format(x) == 'Color.MEMBER', x == data
+    if kind == 'mask':
+        return MaskedStr(data)
+    if kind == 'tag':
+        return TaggedStr(data)
+    raise ValueError('unknown str subclass kind %r' % (kind,))
+
+
+def is_sub(x):
+    return isinstance(x, dict) and set(x) == {'sub', 's'}
+
+
+def realise(x):
+    """a spec with every {'sub': kind, 's': data} replaced by the str-subclass instance"""
+    if is_sub(x):
+        return make_sub(x['sub'], x['s'])
+    if isinstance(x, dict):
+        return {k: realise(v) for k, v in x.items()}
+    if isinstance(x, list):
+        return [realise(v) for v in x]
+    return x
+
+
+def data_of(x):
+    """character data of a spec string (plain or marked)"""
+    return x['s'] if is_sub(x) else x
+
+
+def chardata(x):
+    """the character data of a str (of any subclass) as an exact str — what `str.__str__` of the base class yields"""
+    return str.__str__(x) if isinstance(x, str) and type(x) is not str else x
+
+
+def plain_metrics(metrics):
+    """copies of the collected families with every application string reduced to its character data"""
+    import copy
+    out = []
+    for m in metrics:
+        if (type(m.name) is str and type(m.documentation) is str and
+                all(type(s.name) is str and all(type(k) is str and type(v) is str for k, v in s.labels.items()) for s in m.samples)):
+            out.append(m)
+            continue
+        m2 = copy.copy(m)
+        m2.name = chardata(m.name)
+        m2.documentation = chardata(m.documentation)
+        m2.samples = [s._replace(name=chardata(s.name), labels={chardata(k): chardata(v) for k, v in s.labels.items()}) for s in m.samples]
+        out.append(m2)
+    return out
+
+
+class created_switch:
+    """the created-series switch in the state the spec asks for (None: leave it), restored afterwards"""
+
+    def __init__(self, want):
+        self.want = want
+
+    def __enter__(self):
+        from prometheus_client import metrics as M
+        self.was = bool(M._use_created)
+        if self.want is not None:
+            (M.enable_created_metrics if self.want else M.disable_created_metrics)()
+
+    def __exit__(self, *a):
+        from prometheus_client import metrics as M
+        (M.enable_created_metrics if self.was else M.disable_created_metrics)()
+        return False
+
+
 def build(spec):
     from prometheus_client import CollectorRegistry
     reg = CollectorRegistry()
-    for f in spec['families']:
+    for f in realise(spec['families']):
         src = f['src']
         if src.startswith('class:'):
             build_class(reg, f)
@@ -468,12 +581,14 @@ def evaluate(spec):
     legacy = bool(spec['legacy'])
     legacy0 = V.get_legacy_validation()
     c14text.set_legacy(V, legacy)
+    sw = created_switch(spec.get('created'))
+    sw.__enter__()
     try:
         try:
             reg = build(spec)
         except (ValueError, TypeError, KeyError, IndexError, AttributeError, OverflowError) as e:
             return {'skip': type(e).__name__}
-        metrics = list(reg.collect())
+        metrics = plain_metrics(reg.collect())
         # outside "expressible through the public API": a sample name that Metric() itself rejects under the active
         # validation can only come from Metric.add_sample, which validates nothing (the parser rebuilds such a sample
         # as a family of its own through Metric() and must raise ValueError)
@@ -489,6 +604,7 @@ def evaluate(spec):
             return {'metrics': metrics, 'text': None, 'fails': [
                 ('C03:expose-raises-' + type(e).__name__, 'generate_latest raised %s: %s' % (type(e).__name__, str(e)[:200]))]}
     finally:
+        sw.__exit__()
         c14text.set_legacy(V, legacy0)
     outcome = c14text.real_parse(text, legacy, limit=5.0)
     raw = oracle(metrics, outcome)
@@ -801,7 +917,75 @@ def gen_registry(rng, legacy, note):
             fams.append(gen_helper_family(rng, legacy, idx, note))
         else:
             fams.append(gen_raw_family(rng, legacy, idx, note, irregular))
-    return {'kind': 'registry', 'legacy': legacy, 'families': fams}
+    spec = {'kind': 'registry', 'legacy': legacy, 'families': fams}
+    r = rng.random()
+    if r < 0.3:
+        spec['created'] = False          # created series switched off at scrape time (custom collectors still yield them)
+    elif r < 0.4:
+        spec['created'] = True
+    note('created-switch:%s' % spec.get('created', 'default'))
+    if rng.random() < 0.3:
+        wrap_strings(rng, spec, note)
+    return spec
+
+
+ALNUM_DATA = ['red', 'GET', '200', 'v', 'é', 'a1', 'ǅ', '٣', 'x9Z']
+
+
+def wrap_strings(rng, spec, note=lambda k: None, p=0.5):
+    """the "unusual but legal Python types" dimension: replace application-supplied strings of the spec by str-subclass
+    instances (markers) of a random kind, keeping the character data or (to have alphanumeric data as often as data that
+    needs escaping) replacing it by an alphanumeric token.  Positions: every label value (children, add_metric, `le`, Info
+    values, StateSet / Enum states, raw samples) and help; label names and custom-collector metric names only where their
+    data is outside the legacy alphabet (a name inside it is interpolated as is, before and after any quoting)."""
+    legacy = spec['legacy']
+    used = set()
+
+    def w(x, pos, name=False, keep=False):
+        if is_sub(x) or rng.random() >= p:
+            return x
+        d = x
+        if name:
+            if legacy or not d or LEG_METRIC.fullmatch(d) or LEG_LABEL.fullmatch(d) or d.endswith('\n'):
+                return x
+        elif not keep and rng.random() < 0.4:
+            d = rng.choice(ALNUM_DATA)
+        kind = rng.choice(SUB_KINDS)
+        note('sub:%s:%s:%s' % (pos, kind, 'alnum' if d.isalnum() else 'empty' if not d else 'other'))
+        used.add(kind)
+        return {'sub': kind, 's': d}
+
+    for f in spec['families']:
+        src = f['src']
+        f['help'] = w(f['help'], 'help')
+        if src.startswith('helper:'):
+            f['name'] = w(f['name'], 'metric-name', name=True)
+            f['labels'] = [w(x, 'label-name', name=True) for x in f['labels']]
+            seen = set()
+            for a in f['adds']:
+                lv = [w(x, 'label-value') for x in a['lv']]
+                if tuple(data_of(x) for x in lv) not in seen:
+                    a['lv'] = lv
+                seen.add(tuple(data_of(x) for x in a['lv']))
+                if 'buckets' in a:
+                    a['buckets'] = [[w(le, 'le', keep=True), v] for le, v in a['buckets']]
+                if src == 'helper:InfoMetricFamily':
+                    a['value'] = [[w(k, 'label-name', name=True), w(v, 'info-value')] for k, v in a['value']]
+                if src == 'helper:StateSetMetricFamily':
+                    a['value'] = [[w(k, 'state', keep=True), v] for k, v in a['value']]
+        elif src == 'raw':
+            f['name'] = w(f['name'], 'metric-name', name=True)
+            for smp in f['samples']:
+                smp['labels'] = [[w(k, 'label-name', name=True), w(v, 'label-value')] for k, v in smp['labels']]
+        else:
+            f['labelnames'] = [w(x, 'label-name', name=True) for x in f['labelnames']]
+            for ch in f['children']:
+                ch['lv'] = [w(x, 'label-value:labels()') for x in ch['lv']]
+                if ch.get('info') is not None:
+                    ch['info'] = [[w(k, 'label-name', name=True), w(v, 'info-value')] for k, v in ch['info']]
+            if f.get('states'):
+                f['states'] = [w(x, 'state', keep=True) for x in f['states']]
+    return used
 
 
 def exh_strings(maxlen, alphabet=EXH):
@@ -923,6 +1107,7 @@ def corpus_specs():
             out.append(('corpus:suffix-names', R([{'src': 'raw', 'name': 'r', 'help': 'h', 'type': t, 'unit': '', 'samples': [
                 {'name': 'r' + s, 'labels': [['l', 'v']], 'value': ONE, 'ts': None}
                 for s in ['_gsum', '', '_created', '_total', '_gcount', '_bucket', '_created', '_count', '_sum', '_info', '_x', '_gsum']]}])))
+    out += typed_corpus_specs()
     # UTF-8 names (constructors accept them only without legacy validation)
     R = lambda fams: {'kind': 'registry', 'legacy': False, 'families': fams}
     for nm in ['a b', 'é', '\U0001F600', 'a"b', 'a\\', 'a\\"', 'a\nb', '{', '}', 'a,b', 'a=b', '#', ' ', '\xa0', 'a{l="v"} 1', '"', '""',
@@ -933,6 +1118,66 @@ def corpus_specs():
             {'src': 'class:Enum', 'name': nm + '3', 'help': nm, 'labelnames': [], 'states': [nm, 'b'], 'children': []},
             {'src': 'helper:InfoMetricFamily', 'name': nm + '4', 'help': nm, 'labels': [], 'adds': [{'lv': [], 'value': [[nm + 'k', nm]], 'ts': {'i': 7}}]},
         ])))
+    return out
+
+
+def typed_corpus_specs():
+    """str-subclass instances in every application-string position (each kind; alphanumeric data, data needing escapes,
+    empty); custom collectors yielding _created samples under both states of the created-series switch"""
+    out = []
+    datas = ['red', '200', 'é', '', 'a"b', 'a\\', 'x\ny', 'x y']
+    for legacy in (True, False):
+        for kind in SUB_KINDS:
+            S = lambda d: {'sub': kind, 's': d}
+            R = lambda fams: {'kind': 'registry', 'legacy': legacy, 'families': fams}
+            out.append(('corpus:str-subclass', R([
+                {'src': 'helper:GaugeMetricFamily', 'name': 'g', 'help': S('help ' + datas[0]), 'labels': ['l', 'm'],
+                 'adds': [{'lv': [S(d), 'p' + d], 'value': ONE, 'ts': None} for d in datas]},
+                {'src': 'helper:CounterMetricFamily', 'name': 'c', 'help': S('help'), 'labels': ['l'],
+                 'adds': [{'lv': [S(d)], 'value': ONE, 'created': ONE, 'ts': {'i': 3}} for d in datas[:3]]}])))
+            out.append(('corpus:str-subclass', R([
+                {'src': 'helper:InfoMetricFamily', 'name': 'i', 'help': 'h', 'labels': ['l'],
+                 'adds': [{'lv': [S(d)], 'value': [['k', S(d)]], 'ts': None} for d in datas]},
+                {'src': 'helper:StateSetMetricFamily', 'name': 's', 'help': S('a\\nb'), 'labels': [],
+                 'adds': [{'lv': [], 'value': [[S(d), True] for d in datas], 'ts': None}]},
+                {'src': 'helper:HistogramMetricFamily', 'name': 'h', 'help': S('Help'), 'labels': ['l'],
+                 'adds': [{'lv': [S('GET')], 'buckets': [[S('1'), ONE], [S('+Inf'), ONE]], 'sum': ONE, 'ts': None}]}])))
+            out.append(('corpus:str-subclass', R([
+                {'src': 'raw', 'name': 'r', 'help': S(d), 'type': 'gauge', 'unit': '', 'samples': [
+                    {'name': 'r', 'labels': [['a', S(d)], ['b', S(d[::-1])]], 'value': ONE, 'ts': None}]} for d in datas][:1] + [
+                {'src': 'raw', 'name': 'r%d' % j, 'help': S(d), 'type': 'gauge', 'unit': '', 'samples': [
+                    {'name': 'r%d' % j, 'labels': [['a', S(d)], ['b', S(d[::-1])]], 'value': ONE, 'ts': None}]} for j, d in enumerate(datas)])))
+            out.append(('corpus:str-subclass', R([
+                {'src': 'class:Gauge', 'name': 'cg', 'help': S('help'), 'labelnames': ['l'], 'children': [{'lv': [S(d)], 'set': ONE} for d in datas]},
+                {'src': 'class:Info', 'name': 'ci', 'help': S('x'), 'labelnames': [], 'children': [{'lv': [], 'info': [['k', S(d)] for d in datas[:1]]}]},
+                {'src': 'class:Info', 'name': 'cj', 'help': S(''), 'labelnames': ['l'], 'children': [{'lv': [S(d)], 'info': [['k', S(d)]]} for d in datas]},
+                {'src': 'class:Enum', 'name': 'ce', 'help': 'h', 'labelnames': [], 'states': [S(d) for d in datas], 'children': [{'lv': [], 'state': 'é'}]}])))
+            if not legacy:
+                for nm in ['é', 'a b', '1a', 'a"b', '٣']:
+                    out.append(('corpus:str-subclass:quoted-names', R([
+                        {'src': 'helper:GaugeMetricFamily', 'name': S(nm), 'help': S(nm), 'labels': [S(nm + 'l')],
+                         'adds': [{'lv': [S(nm)], 'value': ONE, 'ts': None}]},
+                        {'src': 'raw', 'name': S(nm + '2'), 'help': 'h', 'type': 'counter', 'unit': '', 'samples': [
+                            {'name': S(nm + '2_total'), 'labels': [[S(nm), S(nm)]], 'value': ONE, 'ts': None}]},
+                        {'src': 'class:Gauge', 'name': 'g', 'help': 'h', 'labelnames': [S(nm)], 'children': [{'lv': [S(nm)], 'set': ONE}]}])))
+        # the created-series switch at scrape time x collectors that yield _created themselves
+        for created in (False, True):
+            R = lambda fams: {'kind': 'registry', 'legacy': legacy, 'created': created, 'families': fams}
+            cre = lambda name, typ, sufs: {'src': 'raw', 'name': name, 'help': 'h ' + typ, 'type': typ, 'unit': '', 'samples': [
+                {'name': name + suf, 'labels': [['l', lv]], 'value': ONE, 'ts': None} for lv in ('a', 'b') for suf in sufs]}
+            out.append(('corpus:created-switch', R([
+                {'src': 'helper:CounterMetricFamily', 'name': 'jobs', 'help': 'Jobs.', 'labels': ['q'],
+                 'adds': [{'lv': ['a'], 'value': ONE, 'created': {'i': 1700000000}, 'ts': None},
+                          {'lv': ['b'], 'value': ONE, 'created': {'b': lib.bits_of(1.5e9)}, 'ts': None}]},
+                {'src': 'class:Counter', 'name': 'local', 'help': 'Local.', 'labelnames': [], 'children': [{'lv': [], 'inc': [ONE]}]}])))
+            out.append(('corpus:created-switch', R([
+                {'src': 'helper:CounterMetricFamily', 'name': 'one', 'help': 'One.', 'labels': [], 'direct': True,
+                 'adds': [{'lv': [], 'value': ONE, 'created': ONE, 'ts': None}]},
+                cre('s', 'summary', ['_count', '_sum', '_created']),
+                cre('h', 'histogram', ['_bucket', '_count', '_sum', '_created']),
+                cre('gh', 'gaugehistogram', ['_bucket', '_gcount', '_gsum']),
+                {'src': 'class:Summary', 'name': 'cs', 'help': 'h', 'labelnames': ['l'], 'children': [{'lv': ['x'], 'obs': [ONE]}]},
+                {'src': 'class:Histogram', 'name': 'ch', 'help': 'h', 'labelnames': [], 'children': [{'lv': [], 'obs': [ONE]}]}])))
     return out
 
 
@@ -961,11 +1206,12 @@ def shrink_spec(spec, sig, budget_s=4.0):
     """smaller registry spec that still fails with the same signature"""
     t0 = time.time()
     legacy = spec['legacy']
+    extra = {k: spec[k] for k in ('created',) if k in spec}
 
     def fails(fams):
         if time.time() - t0 > budget_s:
             return False
-        r = evaluate({'kind': 'registry', 'legacy': legacy, 'families': fams})
+        r = evaluate(dict(extra, kind='registry', legacy=legacy, families=fams))
         return any(s == sig for s, _ in r.get('fails', []))
     fams = list(spec['families'])
     if len(fams) > 1:
@@ -988,7 +1234,7 @@ def shrink_spec(spec, sig, budget_s=4.0):
                 g = dict(f)
                 g[key] = xs
                 fams[i] = g
-    return {'kind': 'registry', 'legacy': legacy, 'families': fams}
+    return dict(extra, kind='registry', legacy=legacy, families=fams)
 
 
 NUMTOK = re.compile(r'[0-9e.+\-InfNa]+')
@@ -1176,7 +1422,7 @@ def compact(spec):
     for f in spec['families']:
         g = {k: v for k, v in f.items() if v not in ([], '', None)}
         fams.append(g)
-    return 'legacy=%s %s' % (spec['legacy'], fams)
+    return 'legacy=%s%s %s' % (spec['legacy'], ' created-series-switch=%s' % spec['created'] if 'created' in spec else '', fams)
 
 
 def run(ctx):
@@ -1264,6 +1510,8 @@ def replay(ctx, case):
     R = Runner(ctx)
     if 'families' in c:
         spec = {'kind': 'registry', 'legacy': bool(c['legacy']), 'families': c['families']}
+        if 'created' in c:
+            spec['created'] = c['created']
         # the run starts with the signed-zero corpus; a failure that depends on what the process rendered earlier
         # (state carried across registries) is reproduced only in the same order, so replay starts the same way
         for tag, prime in corpus_specs():
